@@ -33,7 +33,19 @@ class StageIO(ScriptIO):
                 self.pend.append([now + dt, d])
         self.loaded += 1
 
+    reactor = None      # reactive mode (used while a shell initialises): fn(line) -> reaction bytes
+
     def write(self, buf):
+        if self.reactor is not None:
+            before = len(self.written)
+            k = super().write(buf)
+            self._line = getattr(self, "_line", b"") + bytes(self.written[before:])
+            while b"\r" in self._line:
+                line, _, self._line = self._line.partition(b"\r")
+                data = self.reactor(line)
+                if data:
+                    self.pend.append([self.clock.t, data])
+            return k
         if self.armed:
             self.load_next()
             self.armed = False
